@@ -2,7 +2,7 @@
 body of powermand.c:_select_loop behind wrapped system calls (harness/udmn.c) against the Lean model
 Pm.Daemon.daemonPass behind the line-protocol driver DmMain.  One PRNG (seeded) drives clients, peer
 personalities and kernel answers; the trace the C side printed is what predicates are evaluated on."""
-import collections, os, random, subprocess
+import collections, os, random, re, subprocess
 from common import *
 
 WRAPS = ['gettimeofday', 'regexec', 'socket', 'setsockopt', 'connect', 'getsockopt', 'accept', 'getnameinfo', 'fcntl',
@@ -56,8 +56,11 @@ class Gen:
         self.p = dict(calm=0.15, pF6=0.0005, fatal=0.0005, hibyte=True, faults=1.0, maxclients=4, quit=0.04, garbage=0.02)
         self.p.update(profile or {})
 
+    world = None
+
     def target(self):
         R = self.R
+        if self.world: return self.world.target(R)
         r = R.random()
         if r < 0.2: return "t%d" % R.randint(0, 7)
         if r < 0.3: return "u%d" % R.randint(0, 3)
@@ -108,6 +111,9 @@ class Gen:
                 for i in ids(w[1] if len(w) > 1 else "*"): out += ("plug %d: %s\n" % (i, R.choice(["ON", "OFF", "ERROR", "ON"]))).encode()
             elif s.startswith("temp"):
                 for i in ids(w[1] if len(w) > 1 else "*"): out += ("plug %d: %d\n" % (i, 70 + i)).encode()
+            elif s.startswith("unflash"):
+                # a result text that may span lines: a diagnostic echoed to the client must still be one protocol line
+                for i in ids(w[1] if len(w) > 1 else "*")[:6]: out += ("%d: %s~" % (i, R.choice(["OK", "OK", "ERR breaker tripped", "ERR line one\r\nsee event log 17", "ERR\nx", "ERR \r"]))).encode()
             elif s.startswith("on") or s.startswith("off"):
                 for i in ids(w[1] if len(w) > 1 else "*")[:6]: out += ("%d: %s\n" % (i, R.choice(["OK", "OK", "OK", "ERROR"]))).encode()
         except Exception:
@@ -123,6 +129,10 @@ class Gen:
             i = R.randrange(len(out) + 1)
             neg = bytes([255, R.choice([251, 252, 253, 253, 253, 254, 255, 241]), R.choice([1, 3, 6, 24, 31, 0, 99])][:R.choice([2, 3, 3, 3])])
             out = out[:i] + neg + out[i:]
+        if R.random() < 0.04 * self.p['faults']:
+            # a telnet sequence left dangling at the end of what the device says: if the connection drops before the next byte,
+            # nothing of it may leak into the next connection
+            out += R.choice([bytes([255]), bytes([255, 253]), bytes([255, 251])])
         return out
 
     def connans(self):
@@ -132,7 +142,7 @@ class Gen:
 
 def run_c(binary, conf, opgen, N, errpath):
     """drive the C harness; opgen(state) yields the next op line given what was observed so far"""
-    p = subprocess.Popen([binary, conf], stdin=subprocess.PIPE, stdout=subprocess.PIPE, stderr=open(errpath, 'w'), text=True, env=ASAN_ENV)
+    p = subprocess.Popen([binary, conf], stdin=subprocess.PIPE, stdout=subprocess.PIPE, stderr=open(errpath, 'w'), text=True, env=dict(ASAN_ENV, ASAN_OPTIONS=ASAN_ENV['ASAN_OPTIONS'].replace('detect_leaks=0', 'detect_leaks=1')))
     dump = []
     while True:
         l = p.stdout.readline()
@@ -157,11 +167,12 @@ def run_c(binary, conf, opgen, N, errpath):
     return p, dump, c_op
 
 
-def simulate(seed, N, profile=None, conf='mixp', fixed_ops=None):
+def simulate(seed, N, profile=None, conf='mixp', fixed_ops=None, world=None):
     """returns dict(dump, ops, couts (C side, per op), xs (regexec records per op), stats, died, stderr)"""
     binary = build()
-    cpath = conf_path(conf)
+    cpath = world.conf_path() if world else conf_path(conf)
     g = Gen(seed, profile)
+    g.world = world
     R = g.R
     P = g.p
     errpath = os.path.join(tree_dir(), 'udmn.err.%d.%d' % (os.getpid(), seed))
@@ -169,7 +180,7 @@ def simulate(seed, N, profile=None, conf='mixp', fixed_ops=None):
     ops = []; couts = []; xsl = []
     stats = collections.Counter()
     live = {}; sendq = collections.defaultdict(bytes)
-    now = 0; ND = 2; conn = [0] * ND; dfd = [-1] * ND; dto = [False] * ND; pending = [b""] * ND
+    now = 0; ND = world.nd if world else 2; conn = [0] * ND; dfd = [-1] * ND; dto = [False] * ND; pending = [b""] * ND
     died = False
     for it in range(N if fixed_ops is None else len(fixed_ops)):
         if fixed_ops is not None:
@@ -235,7 +246,7 @@ def simulate(seed, N, profile=None, conf='mixp', fixed_ops=None):
                 t = l.split(); fd = int(t[2]); newlive[fd] = dict(id=int(t[1]), quit=t[3] == "1", pending=int(t[6]), to=t[8] != "-")
             if l.startswith("O dev ") and l.split()[3] == "conn":
                 t = l.split(); di = int(t[2]); newconn = int(t[4]); dfd[di] = int(t[7])
-                if newconn == 2 and conn[di] != 2: pending[di] = b"hello\n0 vpc> " if R.random() < 0.95 else b""
+                if newconn == 2 and conn[di] != 2: pending[di] = (world.greeting(di) if world else b"hello\n0 vpc> ") if R.random() < 0.95 else b""
                 if newconn != 2: pending[di] = b""
                 conn[di] = newconn
             if l.startswith("O dev ") and l.split()[3] == "to": dto[int(l.split()[2])] = (l.split()[4] != "-")
@@ -243,8 +254,8 @@ def simulate(seed, N, profile=None, conf='mixp', fixed_ops=None):
                 t = l.split(); fd = int(t[2]); w = bytes.fromhex(t[3]) if t[3] != "-" else b""
                 if fd >= 2000:
                     if t[4] == "ok":
-                        lines = [x for x in w.split(b"\n") if x and x[0] != 255]
-                        if lines and fd in wfd: pending[wfd[fd]] += g.devreply(lines[-1] + b"\n")
+                        lines = [x for x in re.sub(rb"\xff[\xfb\xfc].", b"", w, flags=re.S).split(b"\n") if x and x[0] != 255]
+                        if lines and fd in wfd: pending[wfd[fd]] += (world.devreply(g, wfd[fd], lines[-1] + b"\n", len(ops)) if world else g.devreply(lines[-1] + b"\n"))
                 else:
                     if "BLOCKS" in l: stats['blocking write that cannot complete'] += 1
                     for ln in w.split(b"\r\n"):
@@ -254,6 +265,10 @@ def simulate(seed, N, profile=None, conf='mixp', fixed_ops=None):
         for fd in list(live):
             if fd not in newlive: sendq.pop(fd, None)
         live = newlive
+    teardown = None
+    if not died:
+        res = c_op("Q")
+        teardown = [l for l in res if not l.startswith("X ")]
     try:
         p.stdin.close()
     except Exception:
@@ -261,13 +276,14 @@ def simulate(seed, N, profile=None, conf='mixp', fixed_ops=None):
     p.wait()
     err = open(errpath).read()
     os.unlink(errpath)
-    return dict(seed=seed, conf=conf, dump=dump, ops=ops, couts=couts, xs=xsl, stats=stats, died=died, stderr=err[-4000:], rc=p.returncode)
+    return dict(seed=seed, conf=conf, dump=dump, ops=ops, couts=couts, xs=xsl, stats=stats, died=died, stderr=err[-6000:], rc=p.returncode, teardown=teardown)
 
 
 def lean_side(sim):
     lean_in = list(sim['dump'])
     for op, xs in zip(sim['ops'], sim['xs']):
         lean_in += xs + [op]
+    if sim.get('teardown') is not None: lean_in.append('Q')
     r = subprocess.run([os.path.join(LEANBIN, 'dmdriver')], input="\n".join(lean_in) + "\n", capture_output=True, text=True)
     chunks = []; cur = []
     for l in r.stdout.split("\n"):
@@ -327,6 +343,14 @@ def compare(sim, chunks):
             kinds = sorted(set((x['c'] or x['lean']).split()[0] + ' ' + ((x['c'] or x['lean']).split() + [''])[1] for x in d))
             diffs.append(dict(at=i, kind='state-differs', lines=d[:6], classes=kinds, op=op[:400]))
             break   # after the first divergence the two sides stay apart
+    td = sim.get('teardown')
+    if td is not None and not diffs:
+        n = len(sim['ops'])
+        le = chunks[n] if n < len(chunks) else ['<missing>']
+        if 'DIED' in td:
+            diffs.append(dict(at=n - 1, kind='death-not-predicted', death='teardown: ' + death_class(sim['stderr']), stderr=sim['stderr'][-1500:], op='Q'))
+        elif canon(td) != canon(le):
+            diffs.append(dict(at=n - 1, kind='teardown-differs', lines=[dict(c=' | '.join(canon(td))[:600], lean=' | '.join(canon(le))[:600])], op='Q'))
     return diffs
 
 
@@ -442,11 +466,142 @@ def simulate_sched(seed, N, sickB, conf='mixp'):
             if l.startswith("Y write "):
                 t = l.split(); fd = int(t[2]); w = bytes.fromhex(t[3]) if t[3] != "-" else b""
                 if fd >= 2000 and t[4] == "ok" and fd in wfd:
-                    lines = [x for x in w.split(b"\n") if x and x[0] != 255]
+                    lines = [x for x in re.sub(rb"\xff[\xfb\xfc].", b"", w, flags=re.S).split(b"\n") if x and x[0] != 255]
                     if lines: pending[wfd[fd]] += (g if wfd[fd] == 1 else gB).devreply(lines[-1] + b"\n")
             if l.startswith("Y "): stats['sys ' + l.split()[1]] += 1
+    teardown = None
+    if not died:
+        res = c_op("Q")
+        teardown = [l for l in res if not l.startswith("X ")]
     try: p.stdin.close()
     except Exception: pass
     p.wait()
     err = open(errpath).read(); os.unlink(errpath)
-    return dict(seed=seed, conf=conf, dump=dump, ops=ops, couts=couts, xs=xsl, stats=stats, died=died, stderr=err[-4000:], rc=p.returncode, clients=clients, sick_mode=sick_mode)
+    return dict(seed=seed, conf=conf, dump=dump, ops=ops, couts=couts, xs=xsl, stats=stats, died=died, stderr=err[-6000:], rc=p.returncode, clients=clients, sick_mode=sick_mode, teardown=teardown)
+
+
+# ---------------------------------------------------------------------------------------------------------------
+# generated "marker" configurations: every script is `send "K<kind> %s\n" expect "ok\n"` (queries capture one state per
+# plug), so the bytes a device receives decode exactly to (script kind, plug set); the script-variant mix (singlet / ranged /
+# all) per command, the plug counts and the unused plugs are drawn per run.
+
+POWER_BASE = {7: ('on', True, True), 10: ('off', True, True), 13: ('cycle', True, True), 16: ('reset', True, True), 23: ('beacon_on', True, False), 25: ('beacon_off', True, False)}
+QUERY_BASE = {2: 'status', 19: 'status_temp', 21: 'status_beacon'}
+KIND2BASE = {}
+for b_ in POWER_BASE: KIND2BASE[b_] = (b_, 's'); KIND2BASE[b_ + 1] = (b_, 'r')
+for b_ in (7, 10, 13, 16): KIND2BASE[b_ + 2] = (b_, 'a')
+for b_ in QUERY_BASE: KIND2BASE[b_] = (b_, 's'); KIND2BASE[b_ + 1] = (b_, 'a')
+CLIENT_VERB = {7: 'on', 10: 'off', 13: 'cycle', 16: 'reset', 23: 'flash', 25: 'unflash', 2: 'status', 19: 'temp', 21: 'beacon'}
+
+
+class MarkerWorld:
+    def __init__(self, seed):
+        R = random.Random(seed * 7 + 1)
+        self.seed = seed
+        self.nd = R.randint(2, 3)
+        self.devs = []
+        for i in range(self.nd):
+            n = R.randint(2, 5)
+            plugs = [str(k + 1) for k in range(n)]
+            letter = 'abc'[i]
+            node = {}
+            for k, pl in enumerate(plugs):
+                node[pl] = None if R.random() < 0.25 else '%s%d' % (letter, k)
+            if not any(node.values()): node[plugs[0]] = letter + '0'
+            has = set()
+            for b, (nm, rng, al) in POWER_BASE.items():
+                pat = R.choice(['s', 's', 'r', 'a', 'sr', 'sa', 'ra', 'sra', 'sra', ''])
+                if 's' in pat: has.add(b)
+                if 'r' in pat: has.add(b + 1)
+                if 'a' in pat and al: has.add(b + 2)
+            for b in QUERY_BASE:
+                pat = R.choice(['s', 'a', 'sa', 'sa', ''] if b != 2 else ['s', 'a', 'sa', 'sa'])
+                if 's' in pat: has.add(b)
+                if 'a' in pat: has.add(b + 1)
+            self.devs.append(dict(name='d%d' % i, plugs=plugs, node=node, has=has, tcp=(i == 0)))
+        self.node2dev = {}
+        for i, d in enumerate(self.devs):
+            for pl, nd in d['node'].items():
+                if nd: self.node2dev[nd.encode()] = (i, pl.encode())
+        self.answers = []        # (op index, dev, plug, state text) ground truth of what the devices answered
+
+    def conf_text(self):
+        names = {7: 'on', 8: 'on_ranged', 9: 'on_all', 10: 'off', 11: 'off_ranged', 12: 'off_all', 13: 'cycle', 14: 'cycle_ranged', 15: 'cycle_all', 16: 'reset', 17: 'reset_ranged', 18: 'reset_all',
+                 23: 'beacon_on', 24: 'beacon_on_ranged', 25: 'beacon_off', 26: 'beacon_off_ranged', 2: 'status', 3: 'status_all', 19: 'status_temp', 20: 'status_temp_all', 21: 'status_beacon', 22: 'status_beacon_all'}
+        t = ''
+        for i, d in enumerate(self.devs):
+            t += 'specification "g%d" {\n  timeout 5\n  plug name { %s }\n  script login { send "L\\n" expect "ok\\n" }\n' % (i, ' '.join('"%s"' % p for p in d['plugs']))
+            for k in sorted(d['has']):
+                base, var = KIND2BASE[k]
+                arg = '*' if var == 'a' else '%s'
+                if base in QUERY_BASE:
+                    cap = 'expect "s([0-9]+)=([a-z0-9]+)\\n" setplugstate $1 $2 on="^on$" off="^off$"' if base != 19 else 'expect "s([0-9]+)=([a-z0-9]+)\\n" setplugstate $1 $2'
+                    if var == 'a' and (self.seed + k) % 2 == 0:
+                        # one exchange per mapped node: `foreachnode` must visit the mapped plugs only, each once, in plug order
+                        body = 'foreachnode { send "K%d %%s\\n" %s expect "ok\\n" }' % (k, cap)
+                    else:
+                        body = 'send "K%d %s\\n" %s expect "ok\\n"' % (k, arg, cap if var == 's' else 'foreachnode { %s }' % cap)
+                elif var == 'r' and (self.seed + k) % 3 == 0:
+                    # per-plug sends inside a ranged script: `foreachplug` must visit exactly the targeted plugs
+                    body = 'foreachplug { send "K%d %%s\\n" expect "ok\\n" }' % k
+                else:
+                    body = 'send "K%d %s\\n" expect "ok\\n"' % (k, arg)
+                t += '  script %s { %s }\n' % (names[k], body)
+            t += '}\n'
+        for i, d in enumerate(self.devs):
+            t += 'device "%s" "g%d" "%s"\n' % (d['name'], i, '127.0.0.1:%d' % (11000 + i) if d['tcp'] else '/bin/true |&')
+        for i, d in enumerate(self.devs):
+            for pl in d['plugs']:
+                if d['node'][pl]: t += 'node "%s" "%s" "%s"\n' % (d['node'][pl], d['name'], pl)
+        return t
+
+    def conf_path(self):
+        p = os.path.join(tree_dir(), 'marker-%d.conf' % self.seed)
+        if not os.path.exists(p):
+            tmp = p + '.tmp%d' % os.getpid()
+            with open(tmp, 'w') as f: f.write(self.conf_text())
+            os.rename(tmp, p)
+        return p
+
+    def all_nodes(self, di=None):
+        return [nd for i, d in enumerate(self.devs) if di is None or i == di for pl in d['plugs'] for nd in [d['node'][pl]] if nd]
+
+    def target(self, R):
+        r = R.random()
+        nodes = self.all_nodes()
+        if r < 0.25: return R.choice(nodes)
+        di = R.randrange(self.nd); dn = self.all_nodes(di)
+        if r < 0.45: return ','.join(dn)                                   # every mapped node of one device
+        if r < 0.65: return ','.join(R.sample(dn, R.randint(1, len(dn))))  # a subset of one device
+        if r < 0.85: return ','.join(R.sample(nodes, R.randint(1, len(nodes))))   # across devices
+        if r < 0.92: return ','.join(nodes)
+        if r < 0.96:
+            x = R.choice(nodes); return '%s,%s,%s' % (x, R.choice(nodes), x)      # a duplicate
+        return R.choice(nodes) + ',zz9'
+
+    def greeting(self, di):
+        return b''
+
+    def devreply(self, g, di, sent, opi):
+        R = g.R
+        d = self.devs[di]
+        out = b''
+        m = re.match(rb'^K(\d+) (\S+)\n$', sent)
+        if m and int(m.group(1)) in KIND2BASE and KIND2BASE[int(m.group(1))][0] in QUERY_BASE:
+            arg = m.group(2)
+            import preds
+            try: plugs = [p.encode() for p in d['plugs'] if d['node'][p]] if arg == b'*' else (preds.expand_hl(arg) if b'[' in arg else [arg])
+            except Exception: plugs = []
+            for pl in plugs:
+                stt = R.choice([b'on', b'off', b'x', b'on']) if KIND2BASE[int(m.group(1))][0] != 19 else str(R.randint(60, 90)).encode()
+                out += b's' + pl + b'=' + stt + b'\n'
+                self.answers.append((opi, di, pl, stt))
+        out += b'ok\n'
+        k = R.random() / max(g.p['faults'], 1e-9)
+        if k < 0.05: out = out[:R.randrange(len(out) + 1)]
+        elif k < 0.05 + g.p['garbage']: out = bytes(R.randrange(256) for _ in range(R.randint(1, 12)))
+        elif k < 0.07 + g.p['garbage']: out = b''
+        if d['tcp'] and R.random() < 0.15:
+            i = R.randrange(len(out) + 1)
+            out = out[:i] + bytes([255, R.choice([251, 253, 253, 254]), R.choice([1, 3, 24, 99])]) + out[i:]
+        return out
